@@ -128,7 +128,7 @@ V == [
   mpcratio |-> [
     checks |-> <<"minlength", "bothgroups", "nonzero", "pairing">>,
     reads  |-> [g1elem |-> {"pairing"}, g2elem |-> {"pairing"}],
-    tgt    |-> [shortslice |-> {"minlength"}, onegroup |-> {"bothgroups"}, zerofirst |-> {"nonzero"}, otherratio |-> {"pairing"}]],
+    tgt    |-> [shortslice |-> {"minlength"}, onegroup |-> {"bothgroups"}, zerofirst |-> {"nonzero"}, otherratio |-> {"pairing"}, mirrored |-> {"pairing"}]],
   \* ecc/*/kzg MpcSetup.Verify(next): the NEXT srs must be a geometric sequence with the ratio of the next [x]_2
   mpckzg |-> [
     checks |-> <<"challenge", "size", "subgroup", "update-proof", "next-ratio">>,
